@@ -15,11 +15,11 @@ Proof. reflexivity. Qed.
 Lemma sts_cbc_plain oct x r calls got kc :
   sts_cbc (plain_src oct (x :: r) calls) (plain_snk false got kc)
   = (DOk 1, plain_src oct r (calls + 1), plain_snk false (got ++ [x]) (kc + 1)).
-Proof. unfold sts_cbc, plain_src. rewrite plain_get_octet. reflexivity. Qed.
+Proof. unfold sts_cbc, plain_src. cbn [s_script get_octet_nz]. rewrite plain_get_octet. reflexivity. Qed.
 
 Lemma sts_cbc_plain_empty oct calls k :
   sts_cbc (plain_src oct [] calls) k = (DErr ENODATA, plain_src oct [] (calls + 1), k).
-Proof. unfold sts_cbc, plain_src. rewrite plain_get_octet. reflexivity. Qed.
+Proof. unfold sts_cbc, plain_src. cbn [s_script get_octet_nz]. rewrite plain_get_octet. reflexivity. Qed.
 
 (* sts_n moves exactly the first n octets when they are there *)
 Lemma sts_n_loop_plain oct : forall payload fuel total r calls got kc,
